@@ -97,6 +97,7 @@ def fnctx(repo: Repo, cls: Optional[str], name: str, module: Optional[str] = Non
     if not inline:
         return FnCtx(mod, c, fn)
     nz = Normalizer(make_resolver(repo, mod, also=set(also)), cls=c, keep=set(keep), depth=depth, lower_comps=lower_comps)
+    nz.records = S._namedtuples_of(mod)
     try:
         fn2 = nz.run(fn)
     except RecursionError:
@@ -345,6 +346,7 @@ def sctx(repo: Repo, cls: Optional[str], name: str, module: Optional[str] = None
     keep = set(keep) | {name}
     nz = Normalizer(make_resolver(repo, mod, private_only=not public, also=set(also)), cls=c, keep=keep, depth=depth,
                     lower_comps=lower_comps)
+    nz.records = S._namedtuples_of(mod)
     try:
         fn2 = nz.run(fn)
     except RecursionError:
